@@ -151,6 +151,47 @@ mod proofs {
         assert!(b.try_cast::<NoClone>().ok() == Some(NoClone(x)));
     }
 
+    // ---- a clonable value without Debug: clones like any other value ------------------------------
+    #[kani::proof]
+    fn non_debugable_clones_and_casts() {
+        let x: u32 = kani::any();
+        let b = Body::new_non_debugable(Other(x));
+        assert!(b.length() == std::mem::size_of::<Other>());
+        assert!(b.is::<Other>() && !b.is::<u32>());
+        let c = b.try_clone();
+        assert!(c.is_some());
+        let c = c.unwrap();
+        assert!(c.try_content::<Other>() == Some(&Other(x)));
+        let d = b.clone(); // must not panic
+        assert!(d.length() == b.length());
+        assert!(d.try_cast::<Other>().ok() == Some(Other(x)));
+        assert!(b.try_cast::<Other>().ok() == Some(Other(x)));
+    }
+
+    // ---- declared lengths of containers are the sums over their parts ------------------------------
+    #[kani::proof]
+    #[kani::unwind(5)]
+    fn container_lengths_are_sums() {
+        let (a, b, c): (bool, bool, bool) = (kani::any(), kani::any(), kani::any());
+        let x: u32 = kani::any();
+        let e = |f: bool| if f { Some(x) } else { None };
+        let n = |f: bool| if f { x.byte_len() } else { 0 };
+        assert!(x.byte_len() == 4);
+        assert!(e(a).byte_len() == n(a));
+        let arr: [Option<u32>; 3] = [e(a), e(b), e(c)];
+        assert!(arr.byte_len() == n(a) + n(b) + n(c)); // elements of different lengths: not first * N
+        assert!((&arr[..]).byte_len() == n(a) + n(b) + n(c));
+        assert!((e(a), e(b)).byte_len() == n(a) + n(b));
+        assert!((e(a), e(b), x).byte_len() == n(a) + n(b) + 4);
+        assert!(Box::new(e(c)).byte_len() == n(c));
+        let r: Result<u32, Option<u32>> = if a { Ok(x) } else { Err(e(b)) };
+        assert!(r.byte_len() == if a { 4 } else { n(b) });
+        let v: Vec<Option<u32>> = vec![e(a), e(b)];
+        assert!(v.byte_len() == n(a) + n(b));
+        let empty: [Option<u32>; 0] = [];
+        assert!(empty.byte_len() == 0);
+    }
+
     // ---- every stored value is dropped exactly once, over all paths of a symbolic script -----------
     #[kani::proof]
     fn drop_exactly_once_all_scripts() {
